@@ -112,3 +112,11 @@ def _wave_drivers_src():
     from translate import gen_wave_drivers
     from vcheck import core
     return gen_wave_drivers.generate(os.path.join(core.REPO, 'src', 'kyupy', 'wave_sim.py'))
+
+
+@register('SimOpsSrc')
+def _simops_src():
+    import os
+    from translate import gen_simops
+    from vcheck import core
+    return gen_simops.generate(os.path.join(core.REPO, 'src', 'kyupy', 'sim.py'))[0]
